@@ -187,7 +187,17 @@ def differential_standin(root, tier, seed):
                    [O['EVar'], 1, O['EVar'], 2, O['Prop2'], O['Instantiate'], 2, 0, 1, O['Symbol'], 3, O['Prop1'], O['Instantiate'], 1, 1, O['Symbol'], 4, O['Prop3'], O['Instantiate'], 1, 0],
                    [O['Symbol'], 0, O['Symbol'], 1, O['Prop1'], O['Instantiate'], 2, 1, 0, O['Symbol'], 2, O['Prop1'], O['Instantiate'], 1, 1],
                    [O['MetaVar'], 0, 0, 0, 0, 0, 0, O['EVar'], 1, O['ESubst'], 0, O['MetaVar'], 1, 0, 0, 0, 0, 0, O['EVar'], 2, O['ESubst'], 1],
-                   [O['Symbol'], 0, O['Save'], O['Symbol'], 1, O['Save'], O['Load'], 0, O['Load'], 1, O['Load'], 0]]
+                   [O['Symbol'], 0, O['Save'], O['Symbol'], 1, O['Save'], O['Load'], 0, O['Load'], 1, O['Load'], 0],
+                   # x1 -> (s0 -> x1): generalising x0 is fine, generalising x1 afterwards (same consequent) is not; x2 afterwards is
+                   [O['EVar'], 1, O['Symbol'], 0, O['Prop1'], O['Instantiate'], 2, 1, 0, O['Generalization'], 0, O['Generalization'], 1],
+                   [O['EVar'], 1, O['Symbol'], 0, O['Prop1'], O['Instantiate'], 2, 1, 0, O['Generalization'], 0, O['Generalization'], 2],
+                   [O['EVar'], 1, O['Symbol'], 0, O['Prop1'], O['Instantiate'], 2, 1, 0, O['Generalization'], 1],
+                   # the SAME proved entry generalised twice (through Save / Load): x2 is fine, x1 is not
+                   [O['EVar'], 1, O['Symbol'], 0, O['Prop1'], O['Instantiate'], 2, 1, 0, O['Save'], O['Generalization'], 2, O['Pop'], O['Load'], 0, O['Generalization'], 1],
+                   # Instantiate on a proof, then on a plain pattern: the second result is a pattern, it cannot be published as a proof
+                   [O['Symbol'], 0, O['Prop1'], O['Instantiate'], 1, 0, O['Pop'], O['Symbol'], 1, O['CleanMetaVar'], 0, O['Instantiate'], 1, 0],
+                   # mu X0 . X0 (positive) then mu X1 over a body where X1 occurs negatively
+                   [O['SVar'], 0, O['Mu'], 0, O['SVar'], 1, O['SVar'], 0, O['Implies'], O['Mu'], 0, O['SVar'], 1, O['SVar'], 0, O['Implies'], O['Mu'], 1]]
         for i in range(n + len(crafted)):
             if i < len(crafted):
                 prog = crafted[i]
